@@ -23,6 +23,10 @@ MethodSmall == {M("f1", "root", "shared", "t1", "P_"), M("f2", "root", "shared",
                 F(N(M("f1", "api", "unset", "none", "none"), "dup")), X(M("f4", "root", "unset", "none", "none")), X(M("f1", "root", "own", "t1", "P_")),
                 \* exposed names that differ only in "." versus "_" on one endpoint
                 N(M("f1", "root", "unset", "none", "none"), "a.b"), N(M("f2", "root", "own", "none", "none"), "a_b")}
+\* sets of three methods are drawn from a sub-alphabet (the full one gives 6859 x 16 x 2 scenarios)
+MethodTriple == {M("f1", "root", "shared", "t1", "P_"), M("f2", "root", "shared", "none", "none"), M("f3", "root", "own", "t1", "none"),
+                 M("f4", "root", "unset", "none", "none"), M("f1", "api", "own", "none", "none"), M("f3", "api", "shared", "none", "P_"),
+                 N(M("f2", "api", "own", "none", "none"), "dup"), F(M("f2", "root", "unset", "none", "none")), X(M("f1", "root", "own", "t1", "P_"))}
 Exposed(m) == IF m.name = "own" THEN m.fn ELSE m.name
 DistinctNames(s) == \A i, j \in DOMAIN s : i # j => ~(Exposed(s[i]) = Exposed(s[j]) /\ s[i].ep = s[j].ep)
 S(k, x, p, ms) == [kind |-> k, extractor |-> x, prefix |-> p, statusmap |-> "none", plan |-> "same", methods |-> ms]
@@ -34,7 +38,7 @@ SM(s) == [s EXCEPT !.statusmap = "map"]
 InitN(A, n) == \E k \in Kinds : \E x \in Extractors(k), p \in {"none", "rpc"} :
                  \/ \E m1 \in MethodAlpha : InitWith(S(k, x, p, <<m1>>))
                  \/ \E m1 \in A, m2 \in A : (n >= 3 \/ p = "none") /\ DistinctNames(<<m1, m2>>) /\ (InitWith(S(k, x, p, <<m1, m2>>)) \/ InitWith(SH(S(k, x, p, <<m1, m2>>))))
-                 \/ n >= 3 /\ \E m1 \in A, m2 \in A, m3 \in A : DistinctNames(<<m1, m2, m3>>)
+                 \/ n >= 3 /\ \E m1 \in MethodTriple, m2 \in MethodTriple, m3 \in MethodTriple : DistinctNames(<<m1, m2, m3>>)
                        /\ (InitWith(S(k, x, p, <<m1, m2, m3>>)) \/ InitWith(SH(S(k, x, p, <<m1, m2, m3>>))))
 \* errors mapped to an HTTP status of their own (OpenAPI only); methods whose error sets for that status differ
 MapExtra == {M("f4", "root", "own2", "none", "none"), M("f2", "root", "own2", "none", "P_"), M("f1", "api", "own2", "t1", "none")}
